@@ -823,11 +823,48 @@ fn gen_phrase(rng: &mut Rng) -> String {
                 let i = rng.usize_below(ws.len());
                 ws[i] = "é".into();
             }
+            4 | 5 => {
+                // a foreign word: multi-byte characters at every byte offset 0..8, abbreviations and
+                // near-misses of list words, so that any byte-indexed "did you mean" logic is exercised
+                let i = rng.usize_below(ws.len());
+                ws[i] = foreign_word(rng, &ws[i]);
+            }
             _ => {}
         }
     }
     let sep = ["  ", " ", "\t", "\n", "\u{3000}", " \u{a0}"][rng.weighted(&[2, 10, 1, 1, 1, 1])];
     ws.join(sep)
+}
+
+/// A word that is not in the list: ASCII padding of 0..7 bytes followed by a multi-byte character
+/// (2, 3 or 4 bytes) and optionally more, or a prefix / misspelling of a real word.
+pub fn foreign_word(rng: &mut Rng, real: &str) -> String {
+    const MB: [&str; 10] = ["é", "ñ", "ß", "€", "日", "語", "😀", "𝒳", "\u{301}", "ǅ"];
+    match rng.below(5) {
+        0 => {
+            let pad = rng.usize_below(8);
+            let mut w: String = real.chars().filter(|c| c.is_ascii()).take(pad).collect();
+            while w.len() < pad {
+                w.push('a');
+            }
+            w.push_str(MB[rng.usize_below(MB.len())]);
+            if rng.coin() {
+                w.push_str(["k", "er", "", "é", "日本"][rng.usize_below(5)]);
+            }
+            w
+        }
+        1 => real.chars().take(rng.range(1, 5) as usize).collect(),
+        2 => format!("{real}{}", ["s", "x", "é", "\u{200b}"][rng.usize_below(4)]),
+        3 => {
+            let mut cs: Vec<char> = real.chars().collect();
+            if !cs.is_empty() {
+                let i = rng.usize_below(cs.len());
+                cs[i] = *rng.pick(&['é', 'x', 'ı', 'İ', 'ß', '0']);
+            }
+            cs.into_iter().collect()
+        }
+        _ => ["naïve", "juné", "ju€k", "j😀", "abc😀", "ééé", "日本語", "žluťoučký", "ZOO", "zoö"][rng.usize_below(10)].to_string(),
+    }
 }
 
 pub fn gen_crash_case(rng: &mut Rng) -> CrashCase {
